@@ -49,16 +49,27 @@ def check_includes(hdrs, std, form, workdir, case, deep=True):
         if not os.path.exists(link):
             os.symlink(r, link)
         args = "-I" + link
+    snapshot = list(args) if isinstance(args, list) else args
     try:
         ast = parse_file(f1, use_cpp=True, cpp_args=args)
     except Exception as e:  # noqa: BLE001
         fail("parse_file", case, label, "parse_file raised %s: %s" % (type(e).__name__, str(e)[:300]), "exc:" + type(e).__name__)
     if not isinstance(ast, c_ast.FileAST):
         fail("parse_file", case, label, "parse_file returned %r" % type(ast).__name__, "notfileast")
+    if args != snapshot:
+        fail("parse_file", case, label, "parse_file modified the caller's cpp_args: %r -> %r" % (snapshot, args), "cpp-args-modified")
+    if isinstance(args, list):
+        # the same list object given again (args built once, used for several files)
+        try:
+            again = parse_file(f1, use_cpp=True, cpp_args=args)
+        except Exception as e:  # noqa: BLE001
+            fail("parse_file", case, label, "second parse_file call with the same cpp_args list raised %s: %s" % (type(e).__name__, str(e)[:200]), "exc-second-call:" + type(e).__name__)
+        if dump(again, True) != dump(ast, True):
+            fail("parse_file", case, label, "second parse_file call with the same cpp_args list gives a different AST", "second-call-differs")
     names = typedef_names(ast)
     if not deep:
         return names
-    argv = ["cpp"] + (args if isinstance(args, list) else [args]) + [f1]
+    argv = ["cpp"] + (list(snapshot) if isinstance(snapshot, list) else [snapshot]) + [f1]
     txt = subprocess.check_output(argv, universal_newlines=True)
     hand = c_parser.CParser().parse(txt, f1)
     d1, d2 = dump(ast, True), dump(hand, True)
